@@ -218,3 +218,90 @@ Proof.
     rewrite (proj2 (eq_stage F _ _ C1 C1)), (proj2 (eq_stage F _ _ C2 C3)), (proj2 (eq_stage F _ _ (C4 1%Z) (C4 2%Z))).
     repeat split; reflexivity.
 Qed.
+
+(* ---- the 'a'-header form ------------------------------------------------------------------
+   For a "name#N" port get_changed_values compares two ARRAYS: slot 0 is the header
+   (type 'a', element type, length), the elements follow (savefile.cpp: the runtime
+   side takes the type of its first element, the default side what the scanner wrote).
+   C16's theorem covers the Arr node: two arrays are equal iff their element types are
+   of one class (booleans T/F form one) and the elements are equal one by one - the same
+   answer as the element-sequence form above. *)
+Definition enc_array (h : Z) (v : value) : list AV.slot :=
+  AV.SArr h (Zlength (enc_value v)) :: enc_value v.
+
+Definition av_eq_array (F : AV.fops) (hu hw : Z) (u w : value) : bool :=
+  match AV.vals_eq F (enc_array hu u) (enc_array hw w)
+                   (Zlength (enc_array hu u)) (Zlength (enc_array hw w)) with
+  | Some b => b
+  | None => false
+  end.
+
+Lemma denote_enc_array : forall F h v, AS.denote F (enc_array h v) [AV.Arr h (val_value v)].
+Proof.
+  intros F h v. unfold enc_array.
+  rewrite <- (app_nil_r (AV.SArr h (Zlength (enc_value v)) :: enc_value v)).
+  apply AS.D_elem; [|constructor]. apply AS.DE_arr. apply denote_enc.
+Qed.
+
+Lemma cmpa_children : forall l r,
+  (fix go (l r : list AS.aval) {struct l} : comparison :=
+     match l, r with
+     | [], [] => Eq
+     | [], _ :: _ => Lt
+     | _ :: _, [] => Gt
+     | a :: l', b :: r' => match AS.cmpa a b with Eq => go l' r' | o => o end
+     end) l r = AS.lex AS.cmpa l r.
+Proof. induction l as [|x l IH]; intros [|y r]; simpl; try reflexivity. rewrite IH. reflexivity. Qed.
+
+Theorem eq_stage_array : forall F hu hw u w, value_comparable u -> value_comparable w ->
+  AV.vals_eq F (enc_array hu u) (enc_array hw w) (Zlength (enc_array hu u)) (Zlength (enc_array hw w))
+    = Some ((AV.arr_class hu =? AV.arr_class hw)%Z && same_value u w) /\
+  av_eq_array F hu hw u w = ((AV.arr_class hu =? AV.arr_class hw)%Z && same_value u w).
+Proof.
+  intros F hu hw u w Hu Hw.
+  assert (Na : forall h v, value_comparable v -> AvCmpProofs.all_nonan [AV.Arr h (val_value v)]).
+  { intros h v Hv. unfold AvCmpProofs.all_nonan. simpl. rewrite andb_true_r. exact (nonan_enc v Hv). }
+  assert (E := AvCmpProofs.vals_eq_spec F (enc_array hu u) (enc_array hw w) _ _
+                 (denote_enc_array F hu u) (denote_enc_array F hw w) (Na hu u Hu) (Na hw w Hw)).
+  assert (V : AS.is_eq (AS.cmp_values [AV.Arr hu (val_value u)] [AV.Arr hw (val_value w)])
+              = ((AV.arr_class hu =? AV.arr_class hw)%Z && same_value u w)).
+  { unfold AS.cmp_values. cbn [map AS.abs AS.lex AS.cmpa]. rewrite Z.compare_refl.
+    destruct (Z.compare (AV.arr_class hu) (AV.arr_class hw)) eqn:Ec.
+    - apply Z.compare_eq in Ec. rewrite Ec, Z.eqb_refl. cbn [andb].
+      rewrite cmpa_children. rewrite <- (values_eq u w Hu Hw). unfold AS.cmp_values.
+      destruct (AS.lex AS.cmpa (map AS.abs (val_value u)) (map AS.abs (val_value w))); reflexivity.
+    - replace (AV.arr_class hu =? AV.arr_class hw)%Z with false; [reflexivity|].
+      symmetry. apply Z.eqb_neq. intro Hc. rewrite Hc, Z.compare_refl in Ec. discriminate.
+    - replace (AV.arr_class hu =? AV.arr_class hw)%Z with false; [reflexivity|].
+      symmetry. apply Z.eqb_neq. intro Hc. rewrite Hc, Z.compare_refl in Ec. discriminate. }
+  rewrite V in E. split; [exact E|]. unfold av_eq_array. rewrite E. reflexivity.
+Qed.
+
+(* with element types of one class the header form and the element-sequence form agree *)
+Corollary eq_stage_array_same : forall F hu hw u w,
+  AV.arr_class hu = AV.arr_class hw -> value_comparable u -> value_comparable w ->
+  av_eq_array F hu hw u w = av_eq_real F u w.
+Proof.
+  intros F hu hw u w Hc Hu Hw.
+  rewrite (proj2 (eq_stage_array F hu hw u w Hu Hw)), (proj2 (eq_stage F u w Hu Hw)), Hc, Z.eqb_refl.
+  reflexivity.
+Qed.
+
+Theorem eq_stage_array_nonvacuous : forall F,
+  (* [1 5 1] against the default [1 1 1], both 'i' arrays *)
+  av_eq_array F 105 105 [VI 1; VI 5; VI 1] [VI 1; VI 1; VI 1] = false /\
+  av_eq_array F 105 105 [VI 1; VI 5; VI 1] [VI 1; VI 5; VI 1] = true /\
+  (* booleans: header 'T' (first element true) against header 'F' *)
+  av_eq_array F 84 70 [VT true; VT false] [VT true; VT false] = true /\
+  (* an 'i' array is never equal to an 'f' array *)
+  av_eq_array F 105 102 [] [] = false.
+Proof.
+  intros F.
+  assert (C : forall v, Forall (fun x => match x with VF _ => False | _ => True end) v -> value_comparable v).
+  { intros v H. unfold value_comparable. eapply Forall_impl; [|exact H]. intros x Hx. destruct x; try exact I. contradiction. }
+  repeat split;
+    match goal with |- av_eq_array _ ?h ?h' ?u ?w = _ =>
+      rewrite (proj2 (eq_stage_array F h h' u w (C u ltac:(repeat constructor)) (C w ltac:(repeat constructor))));
+      vm_compute; reflexivity
+    end.
+Qed.
